@@ -394,7 +394,7 @@ pub fn gen_string(rng: &mut Rng, allow_invalid: bool) -> Vec<u8> {
             ];
             let mut v = Vec::new();
             for _ in 0..rng.range_usize(1, 4) {
-                v.extend_from_slice(rng.pick(pool));
+                let p: &[u8] = pool[rng.below(pool.len() as u64) as usize]; v.extend_from_slice(p);
             }
             v
         }
